@@ -149,7 +149,9 @@ def gen_comp(rng, max_side=5, max_agents=6, tiny=False, sizes=None):
             "stacked_attacks": rng.random() < 0.4,
             "states": ["PositionState", "HealthState", "AmmoState", "OrientationState"],
             "dones": rng.choice([["ActiveDone"], ["ActiveDone"], ["ActiveDone", "OneTeamRemainingDone"]]),
-            "no_overlap": rng.random() < 0.15, "randomize": rng.random() < 0.2}
+            "no_overlap": rng.random() < 0.15, "randomize": rng.random() < 0.2,
+            # which component is CONSTRUCTED first (None: the order of the process's string hash)
+            "build_perm": rng.randrange(24 * 120) if rng.random() < 0.7 else None}
 
 
 def gen_stub(rng, floats, small, unbounded=False):
@@ -562,6 +564,24 @@ class C02Prop(core.Prop):
                     yield c
                 if got and ("%s[%d]" % (name, v)) not in self.stats["examples_failed"]:
                     self.stats["examples_built"]["%s[%d]" % (name, v)] = got
+        # ... and long episodes of them (the repository's own training scripts use horizons of 200 steps): a scripted
+        # cycle that wraps around, a counter that runs out, an index beyond a table only show after many steps.  Of
+        # these sessions every failing event is a case, of the others the events of every fourth step.
+        for name, (fn, nv) in S.EXAMPLES.items():
+            for v in range(1 if quick else nv):
+                reached = 0
+                for k in range(8 if quick else 12):
+                    if k >= (2 if quick else 5) and reached >= 2:
+                        break              # sessions are added until two of them had an episode of 100+ steps
+                    short = 15 if quick else 40
+                    sd = {"stream": "example", "sim": {"name": name, "variant": v}, "wrappers": [], "seed": seed(),
+                          "episodes": 4, "steps": 150 if quick else 400}
+                    top = 0
+                    for c in self._session_cases(sd, only=lambda e: e.step > short and (
+                            e.outcome == "err" or not e.rc or e.step % 4 == 0)):
+                        top = max(top, c.desc["at"].get("step") or 0)
+                        yield c
+                    reached += top >= 100
         # examples under the wrappers the repository itself uses them with, then every applicable single wrapper
         ex_stacks = [("team_battle_example", 1, ["super"], [[0, 4], [1, 5], [2, 6], [3, 7]]),
                      ("multi_corridor", 1, ["ravel"], None), ("multi_corridor", 0, ["flatten"], None),
